@@ -829,6 +829,17 @@ def setitem_any(interp, obj, key, val):
 def contains(interp, container, item):
     if hasattr(container, "__pyvc_contains__"):
         return container.__pyvc_contains__(interp, item)
+    if isinstance(item, _strsym.SStr) and isinstance(container, (set, frozenset, list, tuple, dict)):
+        # chunked string in a collection of strings: symbolic comparison with each member
+        terms = []
+        for member in container:
+            if isinstance(member, (str, _strsym.SStr)):
+                r = item == member
+                if r is True:
+                    return True
+                if r is not False:
+                    terms.append(sym.truth(r))
+        return mk(z3.Or(terms)) if terms else False
     # real objects with a typhon __contains__ are analysed code
     meth = getattr(type(container), "__contains__", None)
     if meth is not None and str(getattr(meth, "__module__", "") or "").startswith("typhon") and not interp.concrete:
@@ -1703,3 +1714,22 @@ def py_isinstance2(interp, obj, cls):
     if isinstance(obj, _strsym.SStr):
         return isinstance("", cls)
     return _old_isinstance(interp, obj, cls)
+
+
+import posixpath as _posixpath
+import os as _os
+
+
+@model(_posixpath.join, _os.path.join)
+def posix_join(interp, a, *parts):
+    res = a
+    for b in parts:
+        bs = b.concrete_shape() if isinstance(b, _strsym.SStr) else b
+        rs = res.concrete_shape() if isinstance(res, _strsym.SStr) else res
+        if bs.startswith("/"):
+            res = b
+        elif rs == "" or rs.endswith("/"):
+            res = res + b
+        else:
+            res = res + "/" + b
+    return res
